@@ -16,16 +16,24 @@ Coq resolver vs Python resolver). Property = oracle vs real code:
     lifting);
   - the reports are exactly the oracle's shadowing set (primary and secondary
     range), a repeated parameter is reported and nothing else is;
+  - the `Declarations` table of the CFG answers, for every occurrence, with the
+    location and type of the declaration the oracle resolves it to;
   - after `into_ssa` every versioned read has a definition of the same
-    (name, suffix, version) (D20 regression), and SSA construction succeeds
+    (name, suffix, version) (D20 regression), no version is assigned twice,
+    the versions of one (name, suffix) are 0..k (own counter), locals are
+    versioned and signals / components are not, and SSA construction succeeds
     on programs whose variables are all initialised;
   - end to end: the binary displays exactly those CS0001 / CS0002 findings
-    (stdout of `--verbose`, locations from the SARIF file).
+    (stdout of `--verbose`, locations from the SARIF file), each naming the
+    redeclared variable / repeated parameter in its message.
 Domain of the comparison theorems (Spec.ScopeSpec.branch_closed): the extracted
 predicate must hold on the projection of every parsed case, and programs with
 a bare declaration as loop body / branch must be rejected by the parser.
-`gen` regenerates coq/gen/SsaKey.v (the key of the SSA version maps) from the
-text of ssa_impl.rs (lib/props/c10key.py).
+The key of the SSA version maps (private `Environment::version_key`) is tied
+behaviourally: `ssa_failures` demands an own version counter per (name, suffix)
+on programs whose identifiers look like suffixed / versioned names (x_0, x0,
+x_10, x10 ... next to up to 16 redeclarations of x). lib/props/c10key.py reads
+the function from the text as a LINT outside the obligations.
 """
 import json
 import os
@@ -42,13 +50,39 @@ CORPUS = os.path.join(common.VERIF, "corpus", "C10")
 BATCH = 60000
 
 
-KEY_INFO = {}
+def key_lint_of(mb):
+    """LINT outside the obligations: Environment::version_key read from the text of
+    ssa_impl.rs (c10key.py), decided by the extracted key_format_ok."""
+    def decide(line):
+        try:
+            return common.run_lines(mb, ["keyfmt"], [line])[0].strip()
+        except Exception as e:      # the lint must never take the check down
+            return "error %r" % (e,)
+    try:
+        return c10key.lint(common.REPO, decide)
+    except Exception as e:
+        return {"verdict": "not understood", "reader": "lint crashed: %r" % (e,)}
 
 
-def gen(ctx):
-    """coq/gen/SsaKey.v: the pieces of Environment::version_key and the accesses
-    to the version maps, read from the text of ssa_impl.rs of the tree under test."""
-    KEY_INFO.update(c10key.gen())
+def identchar_probe(bins):
+    """Which bytes may occur inside an identifier? For every byte b of 1..127 the
+    function `function f() { var a<b>z = 1; return 0; }` is parsed by the real
+    parser; b is an identifier byte iff the declared name is a<b>z. Compared with
+    the extracted Model.UniqueVars.ident_char (the class the hypotheses ident_ok /
+    nodot of the theorems are about)."""
+    hb, mb = bins
+    bs = list(range(1, 128))
+    srcs = ["function f() { var a%sz = 1; return 0; }" % chr(b) for b in bs]
+    impl = common.run_lines(hb, [], [t.encode().hex() for t in srcs])
+    model = common.run_lines(mb, ["identchar"], [str(b) for b in bs])
+    out = {"bytes": len(bs), "mismatches": [], "identifier_bytes": 0}
+    for b, t, li, lm in zip(bs, srcs, impl, model):
+        name = "a%sz" % chr(b)
+        real = 1 if (" D v %s " % name) in li.split("|")[0] + " " else 0
+        out["identifier_bytes"] += real
+        if str(real) != lm.strip():
+            out["mismatches"].append({"byte": b, "source": t, "impl": li[:200], "model": int(lm.strip()) if lm.strip().isdigit() else -1})
+    return out
 
 
 # --------------------------------------------------------------------------
@@ -72,20 +106,112 @@ def tolist(x):
 # the property, checked on the output of the real code
 # --------------------------------------------------------------------------
 
+def decl_names(truth):
+    """Name of every declaration, by declaration index."""
+    return {dc: n for (k, n, dc) in truth["occ"] if k == "d"}
+
+
 def expected_reports(truth, dr, pr):
+    """CS0001:primary:secondary:NAME -- the report names the redeclared variable."""
     exp = []
+    names = decl_names(truth)
     for me, prev in truth["shadows"]:
         r = pr if isinstance(prev, tuple) else dr[prev]
-        exp.append("CS0001:%d-%d:%d-%d" % (tuple(dr[me]) + tuple(r)))
+        exp.append("CS0001:%d-%d:%d-%d:%s" % (tuple(dr[me]) + tuple(r) + (names[me],)))
     return exp
 
 
-def oracle_check(truth, dr, pr, secs, clean, sugar):
+TYPE_LETTER = {"var": "L", "component": "C", "signal": "S", "signal input": "S", "signal output": "S"}
+
+
+def expected_lookup(truth, dr, pr):
+    """Per occurrence, what the table of declarations must answer: location and
+    type of the declaration the oracle resolves the occurrence to (None: the
+    name is not declared at that point, nothing is required)."""
+    out = []
+    for (k, n, dc) in truth["occ"]:
+        if dc is None:
+            out.append(None)
+        elif isinstance(dc, (list, tuple)):
+            out.append("%s@%d-%d:L" % ((k,) + tuple(pr)))
+        else:
+            out.append("%s@%d-%d:%s" % ((k,) + tuple(dr[dc]) + (TYPE_LETTER[truth["kw"][dc]],)))
+    return out
+
+
+def ssa_failures(truth, dr, pr, secs, clean):
+    """The SSA clauses, on the `ssa` section of a successful construction.
+    (1) every versioned read has a definition of the same (name, suffix, version);
+    (2) single assignment: no (name, suffix, version) is written twice;
+    (3) own counter per declaration: the versions named for one (name, suffix)
+        (parameter, write, phi target, array base) are 0..k without a gap -- two
+        declarations that share a key of the version maps share a counter and
+        leave gaps;
+    (4) an occurrence the oracle resolves to a local variable / parameter carries
+        a version, one it resolves to a signal or component carries none (the
+        lookup of the declaration by (name, suffix) decides `is_local`)."""
+    errs = []
+    s = secs["ssa"]
+    params = [p for p in s[0].strip("[]").split(",") if p]
+    defs = set(p + "/0" for p in params)
+    named = {}
+    for p in params:
+        named.setdefault(p, set()).add(0)
+    written = set(defs)
+    for t in s[1:]:
+        k, v = t.split("=", 1)
+        if k in ("w", "p"):
+            if not v.endswith("/-"):
+                if v in written:
+                    errs.append(("ssa", "a (name, suffix, version) is assigned twice", v))
+                    break
+                written.add(v)
+            defs.add(v)
+        if k in ("w", "p", "b") and not v.endswith("/-"):
+            key, ver = v.rsplit("/", 1)
+            named.setdefault(key, set()).add(int(ver))
+    for t in s[1:]:
+        k, v = t.split("=", 1)
+        if k == "r" and not v.endswith("/-") and v not in defs:
+            errs.append(("ssa", "read without a definition of the same (name, suffix, version)", v))
+            break
+    for key, vs in sorted(named.items()):
+        if vs != set(range(len(vs))):
+            errs.append(("ssa", "the versions of one declaration are not 0..k: it shares its version counter with another declaration",
+                         key, sorted(vs)))
+            break
+    # (4): align writes / reads with the occurrences of the lifted CFG
+    ir = secs.get("ir", [])
+    if ir[:1] not in (["error"], ["panic"]) and len(ir) == len(truth["occ"]):
+        want = [(g, o) for g, o in zip(ir, truth["occ"]) if o[0] != "d"]
+        got = [t for t in s[1:] if t[:2] in ("w=", "r=")]
+        if len(want) != len(got):
+            errs.append(("ssa", "writes and reads after into_ssa do not match the occurrences before it", len(got), len(want)))
+        else:
+            for (g, (k, n, dc)), t in zip(want, got):
+                nm, ver = t[2:].rsplit("/", 1)
+                if nm != g.split("=", 1)[1]:
+                    errs.append(("ssa", "into_ssa changed the (name, suffix) of an occurrence", g, t))
+                    break
+                if dc is None:
+                    continue
+                local = isinstance(dc, (list, tuple)) or truth["kw"][dc] == "var"
+                if local and ver == "-":
+                    errs.append(("ssa", "an occurrence of a local variable is left without a version (it is not looked up as the "
+                                        "declaration it denotes)", t, n))
+                    break
+                if not local and ver != "-":
+                    errs.append(("ssa", "an occurrence of a signal / component is versioned as if it were a local variable", t, n))
+                    break
+    return errs
+
+
+def oracle_check(d, truth, dr, pr, secs, clean, sugar):
     """-> list of failures (tuples) of the real code against the oracle."""
     errs = []
     occ = truth["occ"]
     if truth["dup_param"] is not None:
-        if secs.get("perr") != ["CS0002:%d-%d:-" % tuple(pr)]:
+        if secs.get("perr") != ["CS0002:%d-%d:-:%s" % (tuple(pr) + (truth["dup_param"],))]:
             errs.append(("repeated parameter not reported by the pass", secs.get("perr"), secs.get("ren", [])[:3]))
         if secs.get("ir", [""])[:1] != ["error"] or not secs["ir"][1:2] or not secs["ir"][1].startswith("CS0002"):
             errs.append(("repeated parameter not reported by into_cfg", secs.get("ir", [])[:2]))
@@ -121,6 +247,21 @@ def oracle_check(truth, dr, pr, secs, clean, sugar):
             if decl_of.setdefault(gn, dc) != dc:
                 errs.append((sec, "two declarations share a name", gn, str(dc), str(decl_of[gn])))
                 break
+    # the table of declarations: every occurrence is looked up as the declaration it denotes
+    dcl = secs.get("dcl")
+    if dcl is not None and dcl[:1] not in (["error"], ["panic"]):
+        want = expected_lookup(truth, dr, pr)
+        if len(dcl) != len(want):
+            errs.append(("dcl", "number of occurrences", len(dcl), len(want)))
+        else:
+            for g, w, o in zip(dcl, want, occ):
+                if w is not None and g != w:
+                    errs.append(("dcl", "an occurrence of %s is looked up as another declaration (or type) than the one it denotes" % o[1], g, w))
+                    break
+        tab = secs.get("tab", [])
+        nrows = len(set(d[2])) + truth["ndecl"]
+        if len(tab) != nrows or any(r.endswith("!key") for r in tab):
+            errs.append(("tab", "the table of declarations has not one row per parameter and declaration", len(tab), nrows))
     exp = expected_reports(truth, dr, pr)
     if secs.get("rep") != exp:
         errs.append(("shadowing reports differ from the redeclaring declarations", secs.get("rep"), exp))
@@ -132,17 +273,7 @@ def oracle_check(truth, dr, pr, secs, clean, sugar):
             if clean:
                 errs.append(("ssa", "construction failed on a program whose variables are all initialised: " + " ".join(s[:2])))
         else:
-            params = [p for p in s[0].strip("[]").split(",") if p]
-            defs = set(p + "/0" for p in params)
-            for t in s[1:]:
-                k, v = t.split("=", 1)
-                if k in ("w", "p"):
-                    defs.add(v)
-            for t in s[1:]:
-                k, v = t.split("=", 1)
-                if k == "r" and not v.endswith("/-") and v not in defs:
-                    errs.append(("ssa", "read without a definition of the same (name, suffix, version)", v))
-                    break
+            errs += ssa_failures(truth, dr, pr, secs, clean)
     elif clean:
         errs.append(("ssa", "missing"))
     return errs
@@ -181,8 +312,8 @@ FAMILIES = ["x_0", "x0"]
 SEPARATORS = ["_", "", "$", "__"]
 
 
-def leaves_of(look):
-    return [(a, b) for a in "DU" for b in ("x", look)]
+def leaves_of(look, targets=False):
+    return [(a, b) for a in ("DUT" if targets else "DU") for b in ("x", look)]
 
 
 def params_of(look):
@@ -196,7 +327,8 @@ def exhaustive_cases(ctx, kmax, depth_of, fam_kmax):
     for look in FAMILIES:
         top = kmax if look == FAMILIES[0] else min(kmax, fam_kmax)
         for k in range(1, top + 1):
-            for f in G.forests(k, depth_of(k), leaves_of(look)):
+            # assignment targets (`x = 1`, `x += 1`, `x++`) are leaves of their own up to 3 leaves
+            for f in G.forests(k, depth_of(k), leaves_of(look, targets=(k <= 3))):
                 kind = "function" if rng.random() < 0.8 else "template"
                 counter = [0]
                 body = G.realise(f, rng, kind, counter)
@@ -210,7 +342,14 @@ def random_cases(ctx, n):
     for i in range(n):
         clean = (i % 2 == 0)
         size = 3 + ctx.rng.randrange(24)
-        yield {"d": G.rand_def(ctx.rng, size, clean=clean), "clean": clean, "src": "random"}
+        deep = (i % 10 == 9)        # one in ten: more statements, nesting up to 9
+        yield {"d": G.rand_def(ctx.rng, size + (30 if deep else 0), clean=clean, maxdepth=9 if deep else 4), "clean": clean, "src": "random"}
+
+
+def deep_cases(ctx, n):
+    for i in range(n):
+        clean = (i % 3 != 0)
+        yield {"d": G.deep_def(ctx.rng, clean=clean), "clean": clean, "src": "deep"}
 
 
 def corpus_cases():
@@ -239,9 +378,43 @@ class Stats:
         self.samples = []
         self.unbraced = 0
         self.unbraced_rejected = 0
+        self.hyp = {"branch_closed": 0, "ident_ok": 0}
+        self.features = {}
 
     def bump(self, h, k):
         self.hist[h][k] = self.hist[h].get(k, 0) + 1
+
+
+def depth_of_stmts(ss):
+    m = 0
+    for s in ss:
+        k = s[0]
+        if k == 'block':
+            m = max(m, 1 + depth_of_stmts(s[1]))
+        elif k == 'while':
+            m = max(m, depth_of_stmts([s[2]]))
+        elif k == 'for':
+            m = max(m, 1 + depth_of_stmts([s[4]]))
+        elif k == 'if':
+            m = max(m, depth_of_stmts([s[2]] + ([s[3]] if s[3] is not None else [])))
+    return m
+
+
+def features(c):
+    """What a case exercises (counted in the evidence: input distribution)."""
+    t = c["text"]
+    out = []
+    if "parallel" in t:
+        out.append("parallel")
+    if re.search(r"\w\.\w", t):
+        out.append("component access")
+    if re.search(r"\][\[.]", t):
+        out.append(">= 2 accesses / dimensions")
+    if c["truth"]["ndecl"] >= 12:
+        out.append(">= 12 declarations")
+    if depth_of_stmts(c["d"][3]) > 4:
+        out.append("nesting > 4")
+    return out
 
 
 def prepare(c):
@@ -271,8 +444,8 @@ def run_batch(cases, bins, st):
         if " ".join(real.get("proj", [])) != c["P"]:
             dis.append(("parser builds another projection than the generator expects", " ".join(real.get("proj", []))[:300], c["P"][:300]))
         for k in model:
-            if k == "ir" and real.get("ir", [""])[:1] in (["error"], ["panic"]):
-                if not (c["sugar"] or truth["dup_param"] is not None):
+            if k in ("ir", "tab", "dcl") and real.get("ir", [""])[:1] in (["error"], ["panic"]):
+                if k == "ir" and not (c["sugar"] or truth["dup_param"] is not None):
                     dis.append(("ir: the real lifting failed", real.get("ir")[:3], model[k][:3]))
                 continue
             if model[k] != real.get(k):
@@ -280,6 +453,14 @@ def run_batch(cases, bins, st):
         if sp.get("closed") != ["1"] and not c.get("unbraced"):
             dis.append(("a generated program is outside Spec.ScopeSpec.branch_closed (a loop body or branch declares a name outside a "
                         "block): the generator and the domain of C10_renaming_preserves_binding disagree", sp.get("closed"), c["P"][:300]))
+        if sp.get("closed") == ["1"]:
+            st.hyp["branch_closed"] += 1
+        idn = sp.get("ident", ["0", "1"])
+        if len(idn) == 2 and idn[0] == idn[1]:
+            st.hyp["ident_ok"] += 1
+        else:
+            dis.append(("a name the parser produced is outside Model.UniqueVars.ident_ok (hypothesis of C10_ssa_keys_injective; it implies "
+                        "nodot, the hypothesis of C10_renaming_injective_on_declarations)", idn, c["P"][:300]))
         if c.get("unbraced"):
             dis.append(("the parser accepts a declaration as the body of a loop or a branch: such programs are outside the domain "
                         "(branch_closed) of C10_renaming_preserves_binding / C10_shadowing_reports_exact", li[:200], c["text"][:300]))
@@ -288,7 +469,7 @@ def run_batch(cases, bins, st):
         if dis:
             st.disagreements.append({"source": c["text"], "def": tolist(d), "first": [str(x)[:400] for x in dis[0]], "count": len(dis)})
         # ---- property ----
-        errs = oracle_check(truth, c["dr"], c["pr"], real, c["clean"], c["sugar"])
+        errs = oracle_check(d, truth, c["dr"], c["pr"], real, c["clean"], c["sugar"])
         if errs:
             st.failing.append({"source": c["text"], "def": tolist(d), "clean": c["clean"],
                                "failure": [str(x)[:300] for x in errs[0]], "impl": li[:1500]})
@@ -298,11 +479,15 @@ def run_batch(cases, bins, st):
         st.bump("shadow_reports", min(len(truth["shadows"]), 6))
         st.bump("source", c["src"].split(" ")[0])
         st.bump("kind", d[0])
+        for f in features(c):
+            st.features[f] = st.features.get(f, 0) + 1
         s = real.get("ssa")
         st.bump("ssa", "absent" if s is None else (s[0] if s[:1] in (["error"], ["panic"]) else "ok"))
         if truth["dup_param"] is not None:
             st.param_collisions += 1
         ren = real.get("ren", [])
+        if any(re.search(r"\.\d\d", t) for t in ren):
+            st.features["two-digit suffix"] = st.features.get("two-digit suffix", 0) + 1
         if any("." in t for t in ren):
             st.shapes.add(re.sub(r" \d+ \d+ ", " ", c["P"]))
         lifted = set(t.split("=", 1)[1] for t in real.get("ir", []) if "=" in t)
@@ -371,10 +556,11 @@ def e2e(ctx, cli, cases, st_e2e):
             def reg(r):
                 return (base + r[0], base + r[1])
             if truth["dup_param"] is not None:
-                expected.append(("CS0002", reg(pr), None))
+                expected.append(("CS0002", reg(pr), None, truth["dup_param"]))
             else:
+                names = decl_names(truth)
                 for me, prev in truth["shadows"]:
-                    expected.append(("CS0001", reg(dr[me]), reg(pr if isinstance(prev, tuple) else dr[prev])))
+                    expected.append(("CS0001", reg(dr[me]), reg(pr if isinstance(prev, tuple) else dr[prev]), names[me]))
         path = os.path.join(wdir, "case_%d.circom" % (fi // per_file))
         with open(path, "w") as f:
             f.write(text)
@@ -398,23 +584,24 @@ def e2e(ctx, cli, cases, st_e2e):
         st_e2e["files"] += 1
         st_e2e["definitions"] += len(spans)
         exp_regions = []
-        for rule, p, s in expected:
+        for rule, p, s, nm in expected:
             pl = linecol(text, p[0]) + linecol(text, p[1])
             sl = (linecol(text, s[0]) + linecol(text, s[1])) if s is not None else None
-            exp_regions.append((rule, pl, sl))
+            exp_regions.append((rule, pl, sl, nm))
         # displayed: header lines and their primary location
         shown = []
         lines = out.splitlines()
         for i, l in enumerate(lines):
-            m = re.match(r"(?:warning|error)\[(CS000[12])\]", l)
+            m = re.match(r"(?:warning|error)\[(CS000[12])\]:?(.*)$", l)
             if m:
+                quoted = re.findall(r"`([^`]*)`", m.group(2))
                 loc = None
                 for l2 in lines[i + 1:i + 3]:
                     m2 = re.search(r"┌─ .*:(\d+):(\d+)\s*$", l2)
                     if m2:
                         loc = (int(m2.group(1)), int(m2.group(2)))
                         break
-                shown.append((m.group(1), loc))
+                shown.append((m.group(1), loc, quoted[0] if len(set(quoted)) == 1 else "|".join(quoted) or "?"))
         # SARIF: regions of primary and related locations
         got = []
         try:
@@ -426,12 +613,13 @@ def e2e(ctx, cli, cases, st_e2e):
                         return (g["startLine"], g["startColumn"], g["endLine"], g["endColumn"])
                     pl = rg(r["locations"][0]) if r.get("locations") else None
                     rel = [rg(x) for x in r.get("relatedLocations", [])]
-                    got.append((r["ruleId"], pl, rel[0] if rel else None))
+                    quoted = re.findall(r"`([^`]*)`", (r.get("message") or {}).get("text", ""))
+                    got.append((r["ruleId"], pl, rel[0] if rel else None, quoted[0] if len(set(quoted)) == 1 else "|".join(quoted) or "?"))
         except (OSError, ValueError, KeyError, IndexError) as e:
-            got = [("no-sarif", repr(e), None)]
+            got = [("no-sarif", repr(e), None, None)]
         st_e2e["findings_expected"] += len(exp_regions)
         ok = sorted(got, key=str) == sorted(exp_regions, key=str) and \
-            sorted(shown, key=str) == sorted([(r, (pl[0], pl[1])) for r, pl, _ in exp_regions], key=str)
+            sorted(shown, key=str) == sorted([(r, (pl[0], pl[1]), nm) for r, pl, _, nm in exp_regions], key=str)
         if not ok:
             # localise to one definition: the first whose findings differ
             culprit = None
@@ -440,7 +628,7 @@ def e2e(ctx, cli, cases, st_e2e):
                 e1 = sorted([x for x in exp_regions if la <= x[1][0] < lb], key=str)
                 g1 = sorted([x for x in got if x[1] and not isinstance(x[1], str) and la <= x[1][0] < lb], key=str)
                 s1 = sorted([x for x in shown if x[1] and la <= x[1][0] < lb], key=str)
-                if e1 != g1 or s1 != sorted([(r, (pl[0], pl[1])) for r, pl, _ in e1], key=str):
+                if e1 != g1 or s1 != sorted([(r, (pl[0], pl[1]), nm) for r, pl, _, nm in e1], key=str):
                     culprit = {"source": t, "def": tolist(d), "expected": [str(x) for x in e1],
                                "sarif": [str(x) for x in g1], "stdout": [str(x) for x in s1]}
                     break
@@ -489,6 +677,11 @@ def run(ctx, proofs):
             batch = []
     if batch:
         run_batch(batch, (hb, mb), st)
+    # 3a. deep family: >= 12 declarations of one name (two-digit suffixes), nesting 5..9
+    n_deep = 400 if quick else 4000
+    deep = list(deep_cases(ctx, n_deep))
+    run_batch(deep, (hb, mb), st)
+    e2e_pool += deep[:20 if quick else 200]
     # 3b. outside the grammar: a declaration as loop body / branch must not parse
     n_unb = 600 if quick else 6000
     run_unbraced([{"d": G.unbraced_def(ctx.rng), "clean": False, "src": "unbraced"} for _ in range(n_unb)], (hb, mb), st)
@@ -496,6 +689,11 @@ def run(ctx, proofs):
     st_e2e = {"files": 0, "definitions": 0, "findings_expected": 0}
     e2e_cases = [c for c in corpus if not G.has_sugar(c["d"][3])] + e2e_pool
     e2e_failing = e2e(ctx, cli, e2e_cases, st_e2e)
+
+    # 5. the character class of identifiers (hypothesis ident_ok / nodot) against the lexer
+    ident_probe = identchar_probe((hb, mb))
+    # 6. lint: Environment::version_key as read from the text of ssa_impl.rs
+    key_lint = key_lint_of(mb)
 
     # ---- verdict ----
     for f in st.failing[:4]:
@@ -516,6 +714,17 @@ def run(ctx, proofs):
         elif proofs["failures"]:
             ctx.violation("proof obligations of C10 no longer check: " + "; ".join(proofs["failures"])[:500],
                           {"broken": "props/C10.v", "failures": proofs["failures"]}, no_input=True)
+        elif key_lint.get("verdict") == "colliding":
+            ctx.violation("lint: Environment::version_key as read from ssa_impl.rs is a format that does not separate name and suffix "
+                          "(%s / %s), and no generated program exposed a shared version counter" % (key_lint.get("some"), key_lint.get("none")),
+                          {"broken": "key of the SSA version maps (lint lib/props/c10key.py, decision Model.UniqueVars.key_format_ok)",
+                           "lint": key_lint}, no_input=True)
+    if ident_probe["mismatches"]:
+        b = ident_probe["mismatches"][0]
+        ctx.violation("the lexer's identifier characters differ from Model.UniqueVars.ident_char (hypothesis of C10_ssa_keys_injective / "
+                      "C10_identifiers_have_no_dot): byte %d" % b["byte"],
+                      {"input": {"source": b["source"], "byte": b["byte"], "identchar_probe": True},
+                       "impl": b["impl"], "spec": "ident_char = %d" % b["model"]})
     ctx.coverage.update({
         "evaluations": st.evaluations,
         "distinct_nontrivial": len(st.shapes),
@@ -524,9 +733,11 @@ def run(ctx, proofs):
                 "renamed at least one occurrence. Exhaustive part: every scope forest with <= %d leaves (leaf = declaration or use/assignment of "
                 "x or x_0, and again with x0 in the place of x_0 up to 4 leaves; blocks nested to depth %s, never a block holding a single block), each realised once with a seeded choice of block "
                 "kind (plain / while / if / if-else), statement form and parameter list from %s. Random part: %d definitions, 3..26 declarations/"
-                "uses, names x, y and one to three lookalikes of a suffixed x from %s, depth <= 4, functions and templates (signals, components), for loops, multiple declarators, dimension "
-                "expressions, array accesses, compound assignments, tuples and anonymous components; half of them all-initialised functions."
-                % (kmax, "3" if quick else "3 (k<=4) / 2 (k=5)", params_of("x_0"), n_rand, G.LOOKALIKES),
+                "uses, names x, y and one to three lookalikes of a suffixed x from %s, depth <= 4 (one in ten: 30 more statements, depth <= 9), functions and templates (signals, components), for loops, multiple declarators, 1..3 dimension "
+                "expressions, 1..3 accesses (indices and `.field`s, on targets too), `parallel` (component initialisers and whole right-hand sides, conditions, indices), compound assignments, tuples and anonymous components; half of them all-initialised functions. "
+                "Deep part: %d definitions with 12..16 declarations of x (suffixes up to .15) nested 5..9 deep next to variables called x_10, x10, x_11 ... (two thirds all-initialised functions). "
+                "Assignment-target leaves in the forests up to 3 leaves."
+                % (kmax, "3" if quick else "3 (k<=4) / 2 (k=5)", params_of("x_0"), n_rand, G.LOOKALIKES, n_deep),
         "exhaustive": False,
         "exhaustive_part": "%d scope forests (all with <= %d leaves)" % (n_exh, kmax),
         "samples": st.samples if not st.disagreements else [st.disagreements[0]],
@@ -540,7 +751,15 @@ def run(ctx, proofs):
                                           "below a nested while), uses in the sibling branch and after; all must be rejected by the parser, and "
                                           "every other generated program must satisfy Spec.ScopeSpec.branch_closed (checked by the extracted "
                                           "predicate on the projection the real parser built)"},
-        "ssa_key_source": KEY_INFO,
+        "ssa_key_lint": key_lint,
+        "hypotheses_evaluated": {
+            "branch_closed (C10_renaming_preserves_binding, C10_shadowing_reports_exact)": "%d of %d parsed cases" % (st.hyp["branch_closed"], st.evaluations),
+            "ident_ok on every name of the parsed projection (C10_ssa_keys_injective; implies nodot of C10_renaming_injective_on_declarations "
+            "and C10_lifted_names_roundtrip by C10_identifiers_have_no_dot)": "%d of %d parsed cases" % (st.hyp["ident_ok"], st.evaluations),
+            "ident_char = the lexer's identifier bytes": "%d of %d bytes agree" % (ident_probe["bytes"] - len(ident_probe["mismatches"]), ident_probe["bytes"]),
+            "NoDup params (C10_duplicate_parameters_reported)": "both sides generated: %d cases with a repeated parameter" % st.param_collisions,
+        },
+        "features": st.features,
         "corpus_cases": len(corpus),
         "corpus_failing": corpus_failing,
         "disagreements_model_vs_impl": len(st.disagreements),
@@ -561,11 +780,16 @@ def run(ctx, proofs):
         "HashMap-backed blocks of VarEnvironment behave like association lists (insert = overwrite, lookup by key): observed by the correspondence",
         "usize version counters do not overflow (2^64 declarations of one name)",
         "identifiers contain no `.` (IDENTIFIER of lang.lalrpop; C10_identifiers_have_no_dot is about the mirrored character class)",
-        "the SSA key function is private: Model.UniqueVars.ssa_key is rendered from coq/gen/SsaKey.v, which lib/props/c10key.py reads from "
-        "the text of ssa_impl.rs on every run (the two arms of version_key as pieces, every access to the version maps with its key "
-        "expression); trusted: that reader (an arm it does not understand becomes a KOther piece and breaks C10_ssa_key_format_separates). "
-        "The behaviour of the key is observed through into_ssa with lookalike identifiers (x0, x1, x_0, x$0, x__0 ...); ssa_key_old is a "
-        "transcription of the replaced code",
+        "the SSA key function Environment::version_key is private and cannot be run: Model.UniqueVars.ssa_key is a transcription. It is "
+        "tied through behaviour only: into_ssa on generated programs with lookalike identifiers (x0, x1, x_0, x$0, x__0, x_10, x10 ...) must give "
+        "every (name, suffix) its own version counter 0..k, define every read, and never assign a version twice (oracle clauses of "
+        "ssa_failures). lib/props/c10key.py reads the function from the text of ssa_impl.rs as a LINT: its verdict is in "
+        "coverage.ssa_key_lint; `not understood` and `outside the proved class` are warnings, `colliding` becomes a violation without "
+        "input only when no generated program exposed the shared counter. ssa_key_old is a transcription of the replaced code",
+        "no Gallina model of the SSA construction in this property (C14 owns it): the SSA clauses are judged by the oracle on the output of the real code",
+        "the `Declarations` table: Model.UniqueVars.build_table / get_declaration_of mirror control_flow_graph/lifting.rs (one row per parameter and "
+        "Declaration statement, keyed by the lifted name) and declarations.rs::get_declaration; compared with the real table (`tab`) and "
+        "the real answer for every occurrence (`dcl`) on every case, and judged by the oracle; no theorem about the table yet (open statement)",
         "every loop body and branch the pass sees declares nothing outside a block of its own (Spec.ScopeSpec.branch_closed, the domain of "
         "C10_renaming_preserves_binding and C10_shadowing_reports_exact): checked by the extracted predicate on the projection of every "
         "parsed case, and the parser rejects every generated program with a bare declaration as loop body or branch; that the desugarer "
@@ -576,6 +800,10 @@ def run(ctx, proofs):
 
 def replay(ctx, rep):
     inp = rep.get("input")
+    if inp and inp.get("identchar_probe"):
+        r = identchar_probe((common.build_harness("uniq"), common.build_model("uniq")))
+        print("identifier bytes per the parser: %d; mismatches with ident_char: %s" % (r["identifier_bytes"], r["mismatches"][:5]))
+        return 1 if r["mismatches"] else 0
     if not inp or not inp.get("def"):
         print("replay names a broken obligation or a whole file, not a definition:", rep.get("broken") or inp)
         return 1
@@ -591,7 +819,7 @@ def replay(ctx, rep):
     hb = common.build_harness("uniq")
     out = common.run_lines(hb, [], [c["text"].encode().hex()])
     print("implementation:", out[0].replace(" | ", "\n  | "))
-    errs = oracle_check(c["truth"], c["dr"], c["pr"], sections(out[0]), c["clean"], c["sugar"])
+    errs = oracle_check(d, c["truth"], c["dr"], c["pr"], sections(out[0]), c["clean"], c["sugar"])
     print("oracle occurrences:", c["truth"]["occ"])
     print("oracle shadowing set:", expected_reports(c["truth"], c["dr"], c["pr"]))
     print("failures:", errs)
